@@ -460,6 +460,48 @@ def rule_fresh(ctx: Ctx):
                   inner.key, f"return {v}")
 
 
+def rule_identity(ctx: Ctx):
+    """C08.identity: what makes two guard entries 'the same' must include everything that changes their
+    meaning - the polarity (cond vs unless) and, for expressions, the structure of the expression."""
+    rep = ctx.rep
+    eq = ctx.fn("CallbackSpec.__eq__")
+    src = " ".join(norm_stmt(n) for n in own_nodes(eq.node) if isinstance(n, ast.Return))
+    rep.check("self.expected_value == other.expected_value" in src or "other.expected_value == self.expected_value" in src, "C08.identity", eq.loc(),
+              "a `cond` entry and an `unless` entry naming the same thing are different guards (polarity is part of the spec identity)",
+              eq.key, src)
+    add = ctx.fn("CallbacksExecutor.add")
+    n = 0
+    for p in ctx.paths(add, inline=None, exc_edges="none"):
+        for b in p.of("branch"):
+            t = b.term
+            if isinstance(t, ast.Compare) and isinstance(t.ops[0], ast.In) and "items_already_seen" in show(t.comparators[0]):
+                n += 1
+                key = xshow(t.left, p.events)
+                rep.check("expected_value" in key and add.params[1] in key, "C08.identity", b.loc(),
+                          "the executor's duplicate test distinguishes the guard polarity as well as the provider key", add.key,
+                          f"seen-test on `{key}`")
+    rep.floor("C08.identity", "duplicate tests in CallbacksExecutor.add", n, 1)
+    uk = ctx.fn("_unique_key")
+    for p in ctx.paths(uk, inline=None, exc_edges="none"):
+        if p.kind != "return":
+            continue
+        v = expand(p.value, p.events)
+        ok = False
+        if isinstance(v, ast.JoinedStr) and v.values:
+            first, last = v.values[0], v.values[-1]
+            ok = isinstance(first, ast.Constant) and isinstance(first.value, str) and first.value.startswith(("(", "[")) and \
+                isinstance(last, ast.Constant) and isinstance(last.value, str) and last.value.endswith((")", "]"))
+        rep.check(ok, "C08.identity", uk.loc(), "the key of a binary sub-expression is bracketed, so differently nested expressions get different keys "
+                  "(`a and (b or c)` vs `(a and b) or c`)", uk.key, f"return {show(v)}")
+    cn = ctx.fn("custom_not")
+    for n_ in own_nodes(cn.node):
+        if isinstance(n_, ast.Assign) and any(show(t).endswith(".unique_key") for t in n_.targets):
+            v = n_.value
+            ok = isinstance(v, ast.JoinedStr) and isinstance(v.values[0], ast.Constant) and "(" in v.values[0].value and \
+                isinstance(v.values[-1], ast.Constant) and v.values[-1].value.endswith(")")
+            rep.check(ok, "C08.identity", cn.loc(n_), "the key of a negation brackets its operand", cn.key, norm_stmt(n_))
+
+
 def rule_conjunction(ctx: Ctx):
     from . import c15
 
@@ -468,4 +510,4 @@ def rule_conjunction(ctx: Ctx):
     c15.rule_copy(ctx, rule="C08.conj")
 
 
-RULES = [rule_regex, rule_optable, rule_build, rule_fast, rule_when, rule_fresh, rule_conjunction]
+RULES = [rule_regex, rule_optable, rule_build, rule_fast, rule_when, rule_fresh, rule_identity, rule_conjunction]
